@@ -1092,11 +1092,11 @@ write_object_info (const gchar  *namespace,
 
   func = g_object_info_get_set_value_function (info);
   if (func)
-    xml_printf (file, " glib:set-value-function=\"%s\"", func);
+    xml_printf (file, " glib:set-value-func=\"%s\"", func);
 
   func = g_object_info_get_get_value_function (info);
   if (func)
-    xml_printf (file, " glib:get-value-function=\"%s\"", func);
+    xml_printf (file, " glib:get-value-func=\"%s\"", func);
 
   if (deprecated)
     xml_printf (file, " deprecated=\"1\"");
